@@ -46,8 +46,10 @@ def gen(rng, n_ops: int) -> dict:
             ops.append({"op": "consume", "c": rng.choice(list(consumers)), "timeout": rng.choice([0.0005, 0.0035])})
         elif r < 0.80:
             ops.append({"op": "terminal"})
-        elif r < 0.92:
+        elif r < 0.87:
             ops.append({"op": "finish", "c": rng.choice(list(consumers))})
+        elif r < 0.94:
+            ops.append({"op": "together_gen"})      # finish() of a holder concurrently with terminal calls on held messages
         else:
             ops.append({"op": "tick", "d": rng.choice([0, 1000, 3000, 50000])})
     return {"queues": queues, "consumers": consumers, "ops": ops, "known": known,
